@@ -209,4 +209,84 @@ def run(ctx):
             out = call(enc, [p.DataSegment(nm)], length=True)
             judge(res, "symbol", f"DataSegment({nm!r})", out, [("symbol", nm)])
             res.seen("symbol", n)
+
+    # ---- end to end: paths and routes as the reference target receives them ---------------------------------------------------------
+    from vlib import devices, refpath, reftarget as rt
+    from vlib.bench import Bench, ScenarioDead
+    from vlib.logixbench import CONFIGS, LogixScenario
+    from vlib import logixreq
+    for sc_i in range(40 if quick else 400):
+        if not ctx.mine(sc_i):
+            continue
+        try:
+            b = Bench(rng)
+            hops = refpath.gen_route(rng, max_hops=3) or [(1, rng.choice([0, 2, 5]))]
+            dev = rt.Device(devices.random_identity(rng), rng, b.log)
+            front = rt.Device(devices.random_identity(rng), rng, b.log)
+            routes = {tuple(hops): dev}
+            sib = {}
+            for slot in rng.sample(range(0, 17), 3):
+                r = tuple(hops[:-1]) + ((1, slot),)
+                if r not in routes:
+                    sib[slot] = routes[r] = rt.Device(devices.random_identity(rng), rng, b.log)
+            t = rt.RefTarget(rng, front=front, routes=routes, log=b.log)
+            host = refpath.gen_host(rng)
+            b.set_target(t, host=host)
+            drv = p.CIPDriver(refpath.spell(rng, host, None, hops, False))
+            for d_ in list(routes.values()) + [front]:
+                d_.responder = lambda rq: (0, (), b"\x00")
+            b.call("open", drv.open)
+            for step in range(10):
+                if step in (3, 7) and sib:
+                    slot = rng.choice(sorted(sib))
+                    nj = len(sib[slot].journal)
+                    b.call("get_module_info", drv.get_module_info, slot)
+                    res.ev()
+                    if len(sib[slot].journal) != nj + 1:
+                        res.violation("route:get_module_info", f"get_module_info({slot}) over {hops!r} did not reach the module at {tuple(hops[:-1]) + ((1, slot),)!r}", {"hops": hops, "slot": slot})
+                    continue
+                cls_v, inst_v = rng.choice([0x64, 0x1FF, 0x12345]), rng.choice([1, 0x300, 0x10000])
+                mode = rng.choice(["connected", "usend", "ucmm"])
+                nj = len(dev.journal) if mode != "ucmm" else len(front.journal)
+                kw = {"connected": True} if mode == "connected" else {"connected": False, "unconnected_send": mode == "usend"}
+                b.call("gm", drv.generic_message, service=0x0E, class_code=cls_v, instance=inst_v, attribute=3, **kw)
+                res.ev()
+                res.seen("e2e", mode, len(hops), width(cls_v), width(inst_v))
+                tgt = dev if mode != "ucmm" else front
+                if len(tgt.journal) != nj + 1:
+                    res.violation(f"route:{mode}", f"{mode} generic message over path {hops!r} did not reach the addressed device (after get_module_info calls: {step > 3})", {"hops": hops, "mode": mode})
+                else:
+                    j = tgt.journal[-1]
+                    want = [("logical", "class", cls_v), ("logical", "instance", inst_v), ("logical", "attribute", 3)]
+                    if j["segs"] != want or (mode != "ucmm" and tuple(j["route"]) != tuple(hops)):
+                        res.violation(f"wrong-path:e2e:{mode}", f"target decoded path {j['segs']!r} route {j['route']!r}; intended {want!r} via {tuple(hops)!r}", {"hops": hops})
+            b.call("close", drv.close)
+            for pid, key, what, w in b.log.violations:
+                if pid == "C09":
+                    res.violation(f"target:{key}", what, {"head": w})
+            b.log.violations.clear()
+            b.close()
+        except ScenarioDead:
+            continue
+    for pi in range(4 if quick else 40):
+        try:
+            sc = LogixScenario(rng, size="medium", config=CONFIGS[(pi * ctx.nshards + ctx.shard) % len(CONFIGS)])
+            if sc.ok():
+                for ci in range(10):
+                    reqs = [logixreq.gen_request(sc.prj, rng, sc.conn_size) for _ in range(rng.choice([1, 3, 8]))]
+                    st, out = sc.b.call("read", sc.drv.read, *[r.text for r in reqs])
+                    outs = out if isinstance(out, list) else [out]
+                    for r, tg_ in zip(reqs, outs if st == "ok" else []):
+                        res.ev()
+                        res.seen("e2e-tag", r.shape, sc.label)
+                        # the value can only be right if the emitted path denoted the addressed element
+                        if not tg_ or not r.value_equal(tg_.value)[0]:
+                            res.violation("wrong-path:e2e:tag", f"read({r.text!r}) did not return the addressed element's value ({sc.label}): {tg_!r:.120}", {"request": r.text})
+            for pid, key, what, w in sc.b.log.violations:
+                if pid == "C09":
+                    res.violation(f"target:{key}", what, {"head": w})
+            res.count("paths-parsed-by-target", sc.b.log.counts.get("paths-parsed", 0))
+            sc.close()
+        except ScenarioDead:
+            continue
     return res
